@@ -7,7 +7,8 @@ LEVEL_TEXT = ('bounded symbolic execution (CrossHair/z3) of windows.quote/inner_
               'wrap_quotes/join/split, the `cmd /s /c` wrapping of the Ninja writer and jbos '
               'arguments for every string up to the stated length over all of Unicode, decoded by a '
               'reference model of the Microsoft C runtime argv parser and by the repository\'s own '
-              'split; UuidMap persistence over every history of 2-3 configure runs with solver-chosen '
+              'split (which is itself compared with that model on every text up to 3 (5) characters '
+              'between two fixed words); UuidMap persistence over every history of 2-3 configure runs with solver-chosen '
               'project subsets, and Solution.dependencies/write over every dependency shape of three '
               'projects (exhaustive within the bound)')
 LEVEL_NOTE = ('trusted: rmsvcrt (MS C runtime parse_cmdline rules, no Windows in the sandbox to '
